@@ -90,6 +90,11 @@ def run_closed(ctx, case):
         rho = ref.with_layout(rho, layout)  # same values; the verdict must not depend on strides or writability
         ctx.label('layout=' + layout)
         tag = f'{c["fam"]} dims={dims} layout={layout}'
+        if c['prng'] % 5 == 0:
+            # a call history: the same criteria were asked before with a non-default tolerance (on the maximally mixed state of the same size)
+            mm = np.eye(D) / D
+            ctx.require(bool(E.is_ppt(mm, tuple(dims), eps=1e-3)) and bool(E.check_reduction_witness(mm, tuple(dims), eps=1e-3)), 'criteria accept the maximally mixed state (eps=1e-3)', tag)
+            ctx.label('after calls with another eps')
         if c['prng'] % 4 == 2:
             dimt = np.array(dims[::-1])[::-1]  # the dimensions as an integer array that is a negative-stride view (logical content = dims)
             ctx.label('dims as reversed-view array')
